@@ -271,7 +271,7 @@ def run_sched(bindir, mode, arg_path, timeout=1200):
 
 
 JUDGE_KEEP = {"ev", "t", "fn", "ok", "loc", "ord", "os", "of", "res", "woken", "kind", "run", "blocked", "cut", "cause",
-              "try_ok", "get_mut", "into_inner"}
+              "try_ok", "get_mut", "into_inner", "fact", "compiles"}
 
 
 def judge_runs(chk, runs, tag, batch=150000):
@@ -331,6 +331,13 @@ def report_violations(chk, lock, runs, verdicts, source):
         sig = {"lock": lock, "code": b["code"], "op": fn}
         what = "%s %s: %s (threads=%d progs=%s, source=%s, %d events)" % (
             lock, b["code"], describe(b["code"], fn, r), len(progs), json.dumps(progs, separators=(",", ":")), source, len(r["events"]))
+        if r.get("static"):
+            ev = r["events"][0]
+            chk.violate({"lock": lock, "code": b["code"], "op": "static:" + r["static"]},
+                        "%s %s: `%s` %s against tiny_std::sync (std::sync: the opposite) %s" % (
+                            lock, b["code"], r["static"], "compiles" if ev["compiles"] else "does not compile", "; ".join(ev.get("errors", []))),
+                        {"mode": "static", "fact": r["static"], "compiles": ev["compiles"], "errors": ev.get("errors", [])})
+            continue
         if r.get("probe"):
             chk.violate(dict(sig, op="probe:%s:%s" % (r["probe"], fn)), what,
                         {"mode": "probe", "scenario": r["probe"], "code": b["code"], "trace": r["events"], "end": r["end"]})
@@ -606,6 +613,166 @@ def shortest_path_to(g, pred):
 
 
 # ---------------------------------------------------------------------------------------------
+# static (type-level) obligations: compile probes
+# ---------------------------------------------------------------------------------------------
+_PRE = """#![allow(unused, dead_code)]
+use std::cell::Cell;
+use std::rc::Rc;
+use %s::{Mutex, MutexGuard, RwLock, RwLockReadGuard, RwLockWriteGuard};
+fn is_send<T: Send>() {}
+fn is_sync<T: Sync>() {}
+"""
+_MUTEX_USAGE = """
+fn held(m: &Mutex<Vec<u8>>) -> MutexGuard<'_, Vec<u8>> { m.lock()%(u)s }
+fn main() {
+    let m = Mutex::new(vec![1u8]);
+    { let mut g = held(&m); g.push(2); }
+    let g2 = m.try_lock()%(t)s;
+    assert_eq!(g2.len(), 2);
+    drop(g2);
+    let mut m = m;
+    m.get_mut()%(u)s.push(3);
+    assert_eq!(m.into_inner()%(u)s.len(), 3);
+}
+"""
+_MUTEX_SHARED = """
+fn main() {
+    let m = Mutex::new(Cell::new(0u32));
+    std::thread::scope(|s| {
+        for _ in 0..2 { s.spawn(|| { let g = m.lock()%(u)s; g.set(g.get() + 1); }); }
+    });
+}
+"""
+_RW_USAGE = """
+fn rd(l: &RwLock<Vec<u8>>) -> RwLockReadGuard<'_, Vec<u8>> { l.read()%(u)s }
+fn wr(l: &RwLock<Vec<u8>>) -> RwLockWriteGuard<'_, Vec<u8>> { l.write()%(u)s }
+fn main() {
+    let l = RwLock::new(vec![1u8]);
+    { let mut g = wr(&l); g.push(2); }
+    { let a = rd(&l); let b = l.try_read()%(t)s; assert_eq!(a.len() + b.len(), 4); }
+    let w = l.try_write()%(t)s;
+    drop(w);
+    let mut l = l;
+    l.get_mut()%(u)s.push(3);
+    assert_eq!(l.into_inner()%(u)s.len(), 3);
+}
+"""
+_RW_SHARED = """
+fn main() {
+    let l = RwLock::new(0u32);
+    std::thread::scope(|s| {
+        s.spawn(|| { let g = l.read()%(u)s; let _ = *g; });
+        s.spawn(|| { let mut g = l.write()%(u)s; *g += 1; });
+    });
+}
+"""
+# fact -> (property, body or (tiny body, std body), expected to compile)
+STATIC_FACTS = {
+    "mutex_cell_send": ("C01", "fn main() { is_send::<Mutex<Cell<u32>>>(); }", True),
+    "mutex_cell_sync": ("C01", "fn main() { is_sync::<Mutex<Cell<u32>>>(); }", True),
+    "mutex_u32_send_sync": ("C01", "fn main() { is_send::<Mutex<u32>>(); is_sync::<Mutex<u32>>(); }", True),
+    "mutexguard_u32_sync": ("C01", "fn main() { is_sync::<MutexGuard<'static, u32>>(); }", True),
+    "mutex_usage": ("C01", _MUTEX_USAGE, True),
+    "mutex_shared_across_threads": ("C01", _MUTEX_SHARED, True),
+    "mutex_rc_sync": ("C01", "fn main() { is_sync::<Mutex<Rc<u32>>>(); }", False),
+    "mutex_rc_send": ("C01", "fn main() { is_send::<Mutex<Rc<u32>>>(); }", False),
+    "mutexguard_cell_sync": ("C01", "fn main() { is_sync::<MutexGuard<'static, Cell<u32>>>(); }", False),
+    "mutexguard_send": ("C01", "fn main() { is_send::<MutexGuard<'static, u32>>(); }", False),
+    "rwlock_u32_send_sync": ("C02", "fn main() { is_send::<RwLock<u32>>(); is_sync::<RwLock<u32>>(); }", True),
+    "rwlock_cell_send": ("C02", "fn main() { is_send::<RwLock<Cell<u32>>>(); }", True),
+    "rwreadguard_u32_sync": ("C02", "fn main() { is_sync::<RwLockReadGuard<'static, u32>>(); }", True),
+    "rwwriteguard_u32_sync": ("C02", "fn main() { is_sync::<RwLockWriteGuard<'static, u32>>(); }", True),
+    "rwlock_usage": ("C02", _RW_USAGE, True),
+    "rwlock_shared_across_threads": ("C02", _RW_SHARED, True),
+    "rwlock_cell_sync": ("C02", "fn main() { is_sync::<RwLock<Cell<u32>>>(); }", False),
+    "rwlock_rc_send": ("C02", "fn main() { is_send::<RwLock<Rc<u32>>>(); }", False),
+    "rwlock_rc_sync": ("C02", "fn main() { is_sync::<RwLock<Rc<u32>>>(); }", False),
+    "rwreadguard_cell_sync": ("C02", "fn main() { is_sync::<RwLockReadGuard<'static, Cell<u32>>>(); }", False),
+    "rwwriteguard_cell_sync": ("C02", "fn main() { is_sync::<RwLockWriteGuard<'static, Cell<u32>>>(); }", False),
+    "rwreadguard_send": ("C02", "fn main() { is_send::<RwLockReadGuard<'static, u32>>(); }", False),
+    "rwwriteguard_send": ("C02", "fn main() { is_send::<RwLockWriteGuard<'static, u32>>(); }", False),
+}
+
+
+def static_obligations(chk, pid):
+    """One `cargo check --bins --keep-going` over a generated crate: per fact a bin against
+    tiny_std::sync (t_<fact>) and the same fact against std::sync (s_<fact>, the reference).
+    Returns judge-able pseudo runs (one `obl` event each)."""
+    import fcntl
+    import subprocess
+    tdir = os.path.join(core.VERIF, "probe", "syncty")
+    inst = os.path.join(core.WORK, "probe_syncty-%s" % core.repo_tag())
+    lock = open(os.path.join(core.WORK, ".cargo-syncty-%s.lock" % core.repo_tag()), "w")
+    fcntl.flock(lock, fcntl.LOCK_EX)
+    try:
+        core._instantiate(tdir, inst)
+        bdir = os.path.join(inst, "src", "bin")
+        os.makedirs(bdir, exist_ok=True)
+        facts = {k: v for k, v in STATIC_FACTS.items() if v[0] == pid}
+        want = {}
+        for fact, (_, body, _) in facts.items():
+            # tiny-std's lock() etc. return the guard directly, std's return a LockResult / TryLockResult
+            want["t_" + fact] = _PRE % "tiny_std::sync" + (body % {"u": "", "t": ".unwrap()"} if "%(" in body else body)
+            want["s_" + fact] = _PRE % "std::sync" + (body % {"u": ".unwrap()", "t": ".unwrap()"} if "%(" in body else body)
+        for n in os.listdir(bdir):
+            if n[:-3] not in want:
+                os.unlink(os.path.join(bdir, n))
+        for n, txt in want.items():
+            pth = os.path.join(bdir, n + ".rs")
+            if not os.path.exists(pth) or open(pth).read() != txt:
+                with open(pth, "w") as f:
+                    f.write(txt)
+        e = dict(os.environ)
+        e["CARGO_NET_OFFLINE"] = "true"
+        e.pop("RUSTFLAGS", None)
+        t0 = time.time()
+        p = subprocess.run(["cargo", "check", "--offline", "--bins", "--keep-going", "--message-format=json"], cwd=inst, env=e,
+                           stdout=subprocess.PIPE, stderr=subprocess.PIPE, text=True, timeout=1200)
+    finally:
+        fcntl.flock(lock, fcntl.LOCK_UN)
+        lock.close()
+    ok, errs = set(), {}
+    for line in p.stdout.splitlines():
+        try:
+            m = json.loads(line)
+        except ValueError:
+            continue
+        tgt = m.get("target", {})
+        if "bin" not in tgt.get("kind", []):
+            continue
+        if m.get("reason") == "compiler-artifact":
+            ok.add(tgt["name"])
+        elif m.get("reason") == "compiler-message" and m["message"].get("level") == "error":
+            code = (m["message"].get("code") or {}).get("code")
+            errs.setdefault(tgt["name"], []).append((code, m["message"].get("message", "")[:160]))
+    runs = []
+    summary = {}
+    for fact, (_, _, expect) in facts.items():
+        res = {}
+        for pre in ("t_", "s_"):
+            n = pre + fact
+            if n in ok and n not in errs:
+                res[pre] = True
+            elif n in errs:
+                res[pre] = False
+            else:
+                raise core.ToolError("static obligations: no verdict of cargo for bin %s:\n%s" % (n, p.stderr[-1500:]))
+        if res["s_"] != expect:
+            raise core.ToolError("static obligations: the expectation for %s (%s) is not what std::sync does (%s): %s" % (
+                fact, expect, res["s_"], errs.get("s_" + fact)))
+        if not res["t_"] and not expect and not any(c == "E0277" for c, _ in errs["t_" + fact]):
+            raise core.ToolError("static obligations: %s is rejected, but not as an unsatisfied trait bound: %s" % (fact, errs["t_" + fact]))
+        summary[fact] = {"expected_to_compile": expect, "compiles": res["t_"], "std_reference_compiles": res["s_"]}
+        runs.append({"reset": {"ev": "reset", "run": len(runs), "kind": "static", "progs": [["static:" + fact]]},
+                     "events": [{"ev": "obl", "t": 0, "fact": fact, "compiles": res["t_"],
+                                 "errors": [] if res["t_"] else [x[1] for x in errs["t_" + fact]][:2]}],
+                     "end": {"ev": "end", "blocked": [], "done": [], "cut": False, "sched": []}, "static": fact})
+    chk.extra["static_obligations"] = summary
+    core.log("static obligations: %d facts checked against tiny_std::sync and std::sync in %.1fs" % (len(facts), time.time() - t0))
+    return runs
+
+
+# ---------------------------------------------------------------------------------------------
 # the check itself, shared by C01 and C02
 # ---------------------------------------------------------------------------------------------
 class LockCheck:
@@ -721,6 +888,9 @@ class LockCheck:
                 report_violations(chk, self.lock, pending, vs, source)
             core.log("judged %d executions (%d events) with SyncTrace in %.1fs: %d rejected" % (
                 len(pending), sum(len(r["events"]) + 2 for r in pending), time.time() - t0, len(v)))
+
+        # 0. static (type-level) obligations: who may share the lock, a guard, the payload
+        judge_and_report(static_obligations(chk, self.pid), "static", "S0 static obligations (cargo check)")
 
         # 1. exhaustive model checking + dumped state graph of the small configurations; B1 tour
         for name, n, progs, budgets in tours:
@@ -889,7 +1059,7 @@ class LockCheck:
         #     of the algorithm-level specification (<Prefix>Trace.tla); what the model cannot follow is drift
         t0 = time.time()
         # (the tour replays were already compared step by step by B1 and are left out here)
-        sel = [r for r in pending if not r["source"].startswith(("B1 ", "P1 "))]
+        sel = [r for r in pending if not r["source"].startswith(("B1 ", "P1 ", "S0 "))]
         tot = sum(len(r["events"]) + 1 for r in sel)
         cap = 150000 if tier == "quick" else 1200000
         if tot > cap:
@@ -1069,6 +1239,13 @@ class LockCheck:
 
     def replay(self, path):
         rp = json.load(open(path))["replay"]
+        if rp.get("mode") == "static":
+            chk = core.Check(self.pid, "replay", "model_checking")
+            runs = [r for r in static_obligations(chk, self.pid) if r["static"] == rp["fact"]]
+            v = judge_runs(chk, runs, "replay")
+            print(json.dumps(runs[0]["events"][0]))
+            print("REPRODUCED: %s" % v[0]["code"] if v else "not reproduced (recorded: compiles=%s)" % rp.get("compiles"))
+            return 1 if v else 0
         if rp.get("mode") == "probe":
             chk = core.Check(self.pid, "replay", "model_checking")
             runs = self.probe(chk, [rp["scenario"]])
